@@ -15,75 +15,6 @@ open KM.Bgp KM.Ca KM.Input
 
 /-! ## ROA deltas -/
 
-/-- Some entry of the delta is bad: a removal of something that is not configured (or was
-already removed by this delta), or an addition with an invalid max length, with a prefix
-that is not held, or of an authorisation already present with the same comment.
-"Present" and "same comment" refer to the configuration as it is when the entry is looked
-at: after all removals and the admissible additions before it (`Ca.Spec`). -/
-def SomeEntryBad (r : Routes) (held : Roa → Bool) (u : RoaUpdates) : Prop :=
-  (∃ pre p post, u.removed = pre ++ p :: post ∧ (r.has p = false ∨ p ∈ pre)) ∨
-  (∃ pre c post, u.added = pre ++ c :: post ∧
-    (maxLengthValid c.payload = false ∨ held c.payload = false ∨
-      (Spec.present (Spec.baseline r u.removed) held pre c.payload = true ∧
-        Spec.commentOf (Spec.baseline r u.removed) held pre c.payload = c.comment)))
-
-private theorem badAddition_isSome (base : Routes) (held : Roa → Bool) (pre : List RoaConf) (c : RoaConf) :
-    (∃ k, Spec.badAddition base held pre c = some k) ↔
-      (maxLengthValid c.payload = false ∨ held c.payload = false ∨
-        (Spec.present base held pre c.payload = true ∧ Spec.commentOf base held pre c.payload = c.comment)) := by
-  unfold Spec.badAddition
-  by_cases h1 : maxLengthValid c.payload = true
-  · by_cases h2 : held c.payload = true
-    · by_cases h3 : Spec.present base held pre c.payload = true
-      · by_cases h4 : Spec.commentOf base held pre c.payload = c.comment
-        · simp [h1, h2, h3, h4]
-        · simp [h1, h2, h3, h4]
-      · simp [h1, h2, h3]
-    · simp [h1, h2]
-  · simp [h1]
-
-private theorem expected_empty_iff (r : Routes) (held : Roa → Bool) (u : RoaUpdates) :
-    (Spec.expectedErrors r held u).isEmpty = true ↔ ¬ SomeEntryBad r held u := by
-  unfold DeltaError.isEmpty Spec.expectedErrors
-  simp only [Bool.and_eq_true, List.isEmpty_iff]
-  rw [unknowns_nil_iff, badAdditions_nil_iff, badAdditions_nil_iff, badAdditions_nil_iff]
-  unfold SomeEntryBad
-  constructor
-  · rintro ⟨⟨⟨hD, hN⟩, hU⟩, hI⟩ hbad
-    rcases hbad with ⟨pre, p, post, hs, hb⟩ | ⟨pre, c, post, hs, hb⟩
-    · have := hU pre p post hs
-      unfold Spec.badRemoval at this
-      simp only [List.nil_append, Bool.or_eq_false_iff, Bool.not_eq_false'] at this
-      rcases hb with hb | hb
-      · rw [hb] at this; exact absurd this.1 (by simp)
-      · have hc : pre.contains p = true := by simpa using hb
-        rw [hc] at this; exact absurd this.2 (by simp)
-    · obtain ⟨k, hk⟩ := (badAddition_isSome _ held pre c).mpr hb
-      cases k with
-      | invalidLength => exact hI pre c post hs (by simpa using hk)
-      | notHeld => exact hN pre c post hs (by simpa using hk)
-      | duplicate => exact hD pre c post hs (by simpa using hk)
-  · intro hno
-    refine ⟨⟨⟨?_, ?_⟩, ?_⟩, ?_⟩
-    · intro pre c post hs hk
-      exact hno (Or.inr ⟨pre, c, post, hs, (badAddition_isSome _ held pre c).mp ⟨_, by simpa using hk⟩⟩)
-    · intro pre c post hs hk
-      exact hno (Or.inr ⟨pre, c, post, hs, (badAddition_isSome _ held pre c).mp ⟨_, by simpa using hk⟩⟩)
-    · intro pre p post hs
-      unfold Spec.badRemoval
-      simp only [List.nil_append, Bool.or_eq_false_iff, Bool.not_eq_false']
-      refine ⟨?_, ?_⟩
-      · apply Classical.byContradiction
-        intro h
-        have : r.has p = false := by simpa using h
-        exact hno (Or.inl ⟨pre, p, post, hs, Or.inl this⟩)
-      · apply Classical.byContradiction
-        intro h
-        have : p ∈ pre := by simpa using h
-        exact hno (Or.inl ⟨pre, p, post, hs, Or.inr this⟩)
-    · intro pre c post hs hk
-      exact hno (Or.inr ⟨pre, c, post, hs, (badAddition_isSome _ held pre c).mp ⟨_, by simpa using hk⟩⟩)
-
 /-- The error report of `process_updates` is exactly the list of bad entries, class by class
 and in the order of the delta. -/
 theorem roa_delta_errors_exact (r : Routes) (held : Roa → Bool) (u : RoaUpdates) (E : DeltaError)
@@ -97,7 +28,7 @@ theorem roa_delta_errors_exact (r : Routes) (held : Roa → Bool) (u : RoaUpdate
 
 /-- **A ROA delta is refused exactly when one of its entries is bad.** -/
 theorem roa_delta_iff (r : Routes) (held : Roa → Bool) (u : RoaUpdates) :
-    (∃ E, processUpdates r held u = .error E) ↔ SomeEntryBad r held u := by
+    (∃ E, processUpdates r held u = .error E) ↔ Spec.SomeEntryBad r held u := by
   have hc := (processUpdates_closed r held u).1
   rw [processUpdates_def, hc]
   by_cases he : (Spec.expectedErrors r held u).isEmpty = true
@@ -163,7 +94,7 @@ theorem roa_delta_result_keys (r : Routes) (held : Roa → Bool) (u : RoaUpdates
 /-- The production path (`process_route_authorizations_update`) normalises the delta first;
 the characterisation is the same on the normalised delta. -/
 theorem roa_update_iff (r : Routes) (held : Roa → Bool) (u : RoaUpdates) :
-    (∃ E, processRouteUpdate r held u = .error E) ↔ SomeEntryBad r held u.setExplicitMaxLength :=
+    (∃ E, processRouteUpdate r held u = .error E) ↔ Spec.SomeEntryBad r held u.setExplicitMaxLength :=
   roa_delta_iff r held u.setExplicitMaxLength
 
 /-- After normalisation every payload of the delta carries an explicit max length. -/
@@ -351,11 +282,6 @@ theorem bgpsec_update_iff (s : BgpsecDefs) (holdsAsn : Nat → Bool) (now : Nat)
         exact ⟨e, by rw [he]⟩
 
 /-! ## Children -/
-
-private theorem children_get_none (s : Children) (h : String) :
-    s.get? h = none ↔ s.has h = false := by
-  unfold Children.get? Children.has
-  rw [Option.map_eq_none_iff, List.find?_eq_none, List.any_eq_false]
 
 /-- **Adding a child is refused exactly when** it would be entitled to nothing, to
 resources the CA does not hold, or the name is taken. -/
